@@ -80,6 +80,11 @@ def r2_for(ctx: Ctx) -> None:
     ctx.check(lo == "eval_expression(node.min_value, resolver)", "generate_for:from", f"first value is the start expression; found {lo}")
     ctx.check(hi == "eval_expression(node.max_value, resolver)", "generate_for:to", f"the bound is the end expression, exclusive; found {hi}")
     k = unparse(lp.target)
+    from .c08 import dynamic_scope_dispatch
+
+    dyn = dynamic_scope_dispatch(fn)
+    if dyn and not any(_event(s) == "append" for s in lp.body):
+        raise AnalysisError(f"generate_for: the iteration scope is opened through a dynamic call `{dyn}`; not modelled")
     events = [(_event(s), s) for s in lp.body]
     seq = [e for e, _ in events if e]
     core = [e for e in seq if e != "body"]
@@ -123,18 +128,29 @@ def r3_parser_binding(ctx: Ctx) -> None:
     if len(ctor) != 1:
         raise AnalysisError("parse_if: constructor not found")
     a = ctor[0].args
-    ctx.check(unparse(inline(a[0], env)) == "parse_expression(p)", "parse_if:condition", "first field is the parsed condition")
-    ctx.check(unparse(inline(a[1], env)).startswith("CompoundAstNode(parse_block(p)"), "parse_if:then", "second field is the block that follows")
+    from ..match import canon as _canon10
+
+    ctx.check(_canon10(pi.node, a[0]) == "parse_expression(p)", "parse_if:condition", "first field is the parsed condition")
+    ctx.check(_canon10(pi.node, a[1]).startswith("CompoundAstNode(parse_block(p)"), "parse_if:then", "second field is the block that follows")
     ok = isinstance(a[2], ast.Name)
     if ok:
         ef = assign_facts(pi, a[2].id)  # type: ignore[union-attr]
         none_f = [c for v, c in ef if v == "None"]
         blk_f = [c for v, c in ef if v.startswith("CompoundAstNode(parse_block(p)")]
-        ok = len(ef) == 2 and len(none_f) == 1 and not none_f[0] and len(blk_f) == 1 and ("p.current().value == 'else'", True) in blk_f[0]
+        else_tests = {("p.current().value == 'else'", True), ("p.next().value == 'else'", True)}
+        ok = len(ef) == 2 and len(none_f) == 1 and not none_f[0] and len(blk_f) == 1 and bool(else_tests & set(blk_f[0]))
+        if ok and ("p.next().value == 'else'", True) in blk_f[0]:
+            # the token was consumed to look at it: the other side must put the position back
+            restores = [n for n in walk_no_nested(pi.node) if isinstance(n, ast.Assign) and unparse(n.targets[0]) == "p.pos"] + \
+                       [c for c in calls_in(pi.node) if call_name(c) == "p.backup"]
+            if not restores:
+                ok = False
     ctx.check(ok, "parse_if:else", "third field is the block after `else`, None when absent")
     # order of parsing: condition, then, else
-    order = [s.lineno for s in pi.node.body if "parse_expression(p)" in unparse(s) or "parse_block(p)" in unparse(s)]
-    ctx.check(order == sorted(order) and len(order) == 3, "parse_if:order", "condition, then-block, else-block are read in source order")
+    flat = [unparse(s) for s in pi.node.body]
+    i_cond = next((i for i, u in enumerate(flat) if "parse_expression(p)" in u), -1)
+    i_blocks = [i for i, u in enumerate(flat) if "parse_block(p)" in u]
+    ctx.check(i_cond >= 0 and len(i_blocks) == 2 and i_cond < i_blocks[0] < i_blocks[1], "parse_if:order", "condition, then-block, else-block are read in source order")
     ia = ctx.repo.func(ASTN, "IfAstNode.__init__")
     st = {unparse(n.targets[0]): unparse(n.value) for n in walk_no_nested(ia.node) if isinstance(n, ast.Assign)}
     P = ia.params()
@@ -157,7 +173,7 @@ def r3_parser_binding(ctx: Ctx) -> None:
             seq.append(("assign", ""))
     ok = [x[0] for x in seq] == ["assign", "expr", "comma", "expr"] and names[1] == seq[1][1] and names[2] == seq[3][1]
     ctx.check(ok, "parse_for:start-end", f"start is the expression before the comma and end the one after; parse order {seq}, constructor gets {names}")
-    ctx.check(names[0].endswith(".value") and unparse(inline(a[3], env)).startswith("CompoundAstNode(parse_block(p)"), "parse_for:symbol-body", "symbol name then body block")
+    ctx.check(names[0].endswith(".value") and _canon10(pf.node, a[3]).startswith("CompoundAstNode(parse_block(p)"), "parse_for:symbol-body", "symbol name then body block")
     fa = ctx.repo.func(ASTN, "ForAstNode.__init__")
     st = {unparse(n.targets[0]): unparse(n.value) for n in walk_no_nested(fa.node) if isinstance(n, ast.Assign)}
     P = fa.params()
